@@ -5,6 +5,7 @@ import (
 	"fmt"
 	"math/rand"
 	"sort"
+	"strings"
 
 	"verif/harness/chain"
 
@@ -41,6 +42,7 @@ func (s *Scen) exitStep(m *exitMsg) *Step {
 	signed := &phase0.SignedVoluntaryExit{Message: msg, Signature: s.V.Keys.Sign1(m.signer, htr(&msg), m.dom)}
 	cond := allTrue("exit")
 	cond["signature"] = m.sigOK
+	bnd := ""
 	if uint64(m.validator) >= head.ValidatorCount() {
 		cond["index_known"] = false
 	} else {
@@ -49,8 +51,18 @@ func (s *Scen) exitStep(m *exitMsg) *Step {
 		cond["not_exiting"] = fv.ExitEpoch == chain.FarFuture
 		cond["epoch_reached"] = cur >= m.epoch
 		cond["old_enough"] = cur >= fv.ActivationEpoch+s.spec().SHARD_COMMITTEE_PERIOD
+		if strings.HasPrefix(m.desc, "status:") {
+			switch {
+			case cur == fv.ActivationEpoch+s.spec().SHARD_COMMITTEE_PERIOD:
+				bnd = "age=SHARD_COMMITTEE_PERIOD"
+			case cur+1 == fv.ActivationEpoch+s.spec().SHARD_COMMITTEE_PERIOD:
+				bnd = "age=SHARD_COMMITTEE_PERIOD-1"
+			case uint64(m.validator)+1 == head.ValidatorCount():
+				bnd = "index=count-1"
+			}
+		}
 	}
-	return &Step{Topic: "exit", Desc: m.desc, Variant: m.variant, Cond: cond, Key: map[string][]string{"exit": {keyIdx(m.validator)}}, Now: s.Now,
+	return &Step{Topic: "exit", Desc: m.desc, Variant: m.variant, Bnd: bnd, Cond: cond, Key: map[string][]string{"exit": {keyIdx(m.validator)}}, Now: s.Now,
 		Run: func(b *Backend) gossipval.GossipValidatorResult {
 			return gossipval.ValidateVoluntaryExit(context.Background(), signed, b)
 		}}
@@ -72,7 +84,7 @@ func (s *Scen) honestExit(v common.ValidatorIndex) *exitMsg {
 
 func (s *Scen) exitHistories(tier string, rng *rand.Rand) []*History {
 	var out []*History
-	if s.Big || s.Name == "altmid" || s.Name == "latebel" || s.Name == "nofin" || s.Name == "p0lag" {
+	if s.Big || s.Name == "altmid" || s.Name == "nofin" || s.Name == "p0lag" {
 		return nil
 	}
 	head := s.V.HeadState()
@@ -141,6 +153,22 @@ func (s *Scen) exitHistories(tier string, rng *rand.Rand) []*History {
 		for _, vm := range vars {
 			out = append(out, seqRefusedThenValid(fmt.Sprintf("%s %d", vm.desc, v), s.exitStep(vm), h))
 		}
+		// an exit dated before the last fork boundary, validated with the head after it
+		if pe, ok := s.preForkEpoch(); ok {
+			m := *hm
+			m.desc = "honest:pre-fork-epoch"
+			m.epoch = pe
+			m.dom = s.exitDomain(head, pe)
+			st := s.exitStep(&m)
+			out = append(out, &History{Name: fmt.Sprintf("pre-fork-epoch %d", v), Steps: []*Step{st, clone(h)}})
+			w := m
+			w.desc = "sig:pre-fork-exit-under-new-version"
+			w.dom = s.exitDomain(head, cur)
+			w.sigOK = w.dom == m.dom
+			if !w.sigOK {
+				out = append(out, seqRefusedThenValid(fmt.Sprintf("%s %d", w.desc, v), s.exitStep(&w), st))
+			}
+		}
 	}
 	oor := s.honestExit(common.ValidatorIndex(n))
 	oor.desc = "index:out-of-range"
@@ -203,7 +231,7 @@ func (s *Scen) honestPslash(p common.ValidatorIndex, slot common.Slot) *pslashMs
 
 func (s *Scen) pslashHistories(tier string, rng *rand.Rand) []*History {
 	var out []*History
-	if s.Big || s.Name == "altmid" || s.Name == "latebel" || s.Name == "nofin" || s.Name == "p0lag" {
+	if s.Big || s.Name == "altmid" || s.Name == "nofin" || s.Name == "p0lag" {
 		return nil
 	}
 	head := s.V.HeadState()
@@ -216,6 +244,9 @@ func (s *Scen) pslashHistories(tier string, rng *rand.Rand) []*History {
 		m := s.honestPslash(common.ValidatorIndex(i), slot)
 		m.desc = fmt.Sprintf("status:slashable=%v", chain.IsSlashable(&fv, cur))
 		st := s.pslashStep(m)
+		if i+1 == n {
+			st.Bnd = "index=count-1"
+		}
 		out = append(out, &History{Name: fmt.Sprintf("validator %d", i), Steps: []*Step{st, clone(st)}})
 		if chain.IsSlashable(&fv, cur) {
 			ok = append(ok, common.ValidatorIndex(i))
@@ -249,6 +280,20 @@ func (s *Scen) pslashHistories(tier string, rng *rand.Rand) []*History {
 		add("sig2:wrong-fork-version", func(m *pslashMsg) { m.d2.Version = s.otherVersion(cur); m.sig2OK = false })
 		for _, vm := range vars {
 			out = append(out, seqRefusedThenValid(fmt.Sprintf("%s %d", vm.desc, p), s.pslashStep(vm), h))
+		}
+		// headers dated before the last fork boundary, validated with the head after it
+		if pe, ok := s.preForkEpoch(); ok {
+			ps := mustV(s.spec().EpochStartSlot(pe+1)) - 1
+			m := s.honestPslash(p, ps)
+			m.desc = "honest:pre-fork-slot"
+			st := s.pslashStep(m)
+			out = append(out, &History{Name: fmt.Sprintf("pre-fork-slot %d", p), Steps: []*Step{st, clone(h)}})
+			w := *m
+			w.desc = "sig:pre-fork-headers-under-new-version"
+			w.d1 = head.Domain(common.DOMAIN_BEACON_PROPOSER, cur)
+			w.d2 = w.d1
+			w.sig1OK, w.sig2OK = false, false
+			out = append(out, seqRefusedThenValid(fmt.Sprintf("%s %d", w.desc, p), s.pslashStep(&w), st))
 		}
 		// headers of an older slot are as slashable
 		if slot > 2 {
@@ -368,8 +413,10 @@ func (s *Scen) aslashStep(m *aslashMsg) *Step {
 }
 
 func (s *Scen) honestAslash(ind []common.ValidatorIndex, surround bool) *aslashMsg {
-	head := s.V.HeadState()
-	te := head.Epoch()
+	return s.honestAslashAt(ind, surround, s.V.HeadState().Epoch())
+}
+
+func (s *Scen) honestAslashAt(ind []common.ValidatorIndex, surround bool, te common.Epoch) *aslashMsg {
 	sp := s.spec()
 	var d1, d2 phase0.AttestationData
 	if surround {
@@ -398,7 +445,7 @@ func (s *Scen) honestAslash(ind []common.ValidatorIndex, surround bool) *aslashM
 
 func (s *Scen) aslashHistories(tier string, rng *rand.Rand) []*History {
 	var out []*History
-	if s.Big || s.Name == "altmid" || s.Name == "latebel" || s.Name == "nofin" || s.Name == "p0lag" || s.Name == "p0early" {
+	if s.Big || s.Name == "altmid" || s.Name == "nofin" || s.Name == "p0lag" || s.Name == "p0early" {
 		return nil
 	}
 	head := s.V.HeadState()
@@ -480,6 +527,19 @@ func (s *Scen) aslashHistories(tier string, rng *rand.Rand) []*History {
 			&History{Name: "subset-after " + tag, Steps: []*Step{clone(h), s.aslashStep(onlyA), s.aslashStep(abc), clone(h)}},
 			&History{Name: "subset-before " + tag, Steps: []*Step{s.aslashStep(onlyA), clone(h), clone(h)}},
 			&History{Name: "extra-signer " + tag, Steps: []*Step{s.aslashStep(m12), clone(h)}})
+		// attestations dated before the last fork boundary, validated with the head after it
+		if pe, ok := s.preForkEpoch(); ok {
+			m := s.honestAslashAt([]common.ValidatorIndex{a, b}, false, pe)
+			m.desc = "honest:pre-fork-target"
+			st := s.aslashStep(m)
+			out = append(out, &History{Name: "pre-fork-target " + tag, Steps: []*Step{st, clone(st)}})
+			w := *m
+			w.desc = "sig:pre-fork-attestations-under-new-version"
+			d := head.Domain(common.DOMAIN_BEACON_ATTESTER, cur)
+			w.dom1, w.dom2 = &d, &d
+			w.sig1OK, w.sig2OK = false, false
+			out = append(out, seqRefusedThenValid(w.desc+" "+tag, s.aslashStep(&w), st))
+		}
 		if len(notOK) > 0 {
 			// one slashable and one not (any more) slashable validator in the intersection
 			x := notOK[r%len(notOK)]
